@@ -6,7 +6,7 @@ patch="$1"; prop="$2"; tier="${3:-quick}"
 cd /repo || exit 2
 if ! git diff --quiet; then echo "repo dirty, refusing"; exit 2; fi
 git apply "$patch" || { echo "patch does not apply"; exit 2; }
-cd /verif && ./check "$prop" --tier "$tier" > /tmp/mutant-out.txt 2>&1
+cd /verif && VERIF_EVIDENCE_DIR=/tmp/vp-mutant-evidence ./check "$prop" --tier "$tier" > /tmp/mutant-out.txt 2>&1
 rc=$?
 git -C /repo checkout -- .
 grep -E "^(VIOLATION|KNOWN-FINDING|DRIFT|MACHINERY|C[0-9]+ tier)" /tmp/mutant-out.txt | cut -c1-400 | head -8
